@@ -28,8 +28,8 @@ MANIFEST = {
     'level_note': 'Trusts iso_ref (self-tested against datetime.fromisoformat / fromisocalendar in every run).  Soundness only: '
                   'valid-but-rejected text is C07\'s subject and is merely counted here.',
 }
-PLAN = {'quick': {'shards': 2, 'timeout': 300, 'budget': 50},
-        'thorough': {'shards': 16, 'timeout': 1500, 'budget': 420}}
+PLAN = {'quick': {'shards': 2, 'timeout': 1800, 'budget': 900},
+        'thorough': {'shards': 16, 'timeout': 7200, 'budget': 2400}}
 N_CASES = {'quick': 40000, 'thorough': 400000}
 
 ALPHA_COMMON = '0123456789' * 3 + '-:+.,TWZ' * 2 + ' \t_tzwx/'
